@@ -67,6 +67,16 @@ def check_conversions(ctx):
         checks.append((rt, scale + 3, cj, "rotate"))
         if centre is not None and not near(g.rotate(centre, R, centre), centre, 3):
             ctx.violate("rotate: the centre is not invariant", cj, {"kind": "rotate"})
+        # point arrays with axes of length one (a single point stored as a vector, a 1 x n grid): the result has the shape of the input
+        for shp in ((1,), (1, 4), (3, 1), (2, 1, 3)):
+            cu = rng.normal(size=(*shp, 3))
+            for cen in (None, rng.normal(size=3)):
+                ru = g.rotate(cu, R, cen)
+                ctx.count("rotate:unit_axes")
+                want_u = (cu - (0 if cen is None else cen)) @ R.T + (0 if cen is None else cen)
+                if np.shape(ru) != cu.shape or not near(ru, want_u, 10):
+                    ctx.violate(f"rotate: points of shape {shp} come back with shape {np.shape(ru)[:-1] if np.ndim(ru) else ()} / other values",
+                                {"op": "rotate_unit_axes", "shape": list(shp), "centre": None if cen is None else cen.tolist()}, {"kind": "rotate_shape"})
         # CoordinateSystem
         cs_ = g.CoordinateSystem(o, B[0], B[1])
         p = g.Points(c)
